@@ -357,14 +357,14 @@ class Builder:
         self.buf.append(s); self.pos += n
 
     def add_gene(self, tx_seq, strand=1, n_exons=1, coding=True, cds_start=None, cds_end=None, sec=(),
-                 tags=(), protein=None, intron=(2, 9), biotype=None, isoforms=0, flank=(0, 0)):
+                 tags=(), protein=None, intron=(2, 9), biotype=None, isoforms=0, flank=(0, 0), exon_lens=None):
         """Place a transcript given in transcript orientation; returns its Tx.
         isoforms: number of extra isoforms derived by skipping one internal exon (non-coding)."""
         r = self.r
         self.n += 1
         gid = f'ENSG{self.n:05d}.1'
         tid = f'ENST{self.n:05d}.1'
-        lens = split_exons(r, len(tx_seq), n_exons)
+        lens = list(exon_lens) if exon_lens else split_exons(r, len(tx_seq), n_exons)
         pieces = []
         off = 0
         for L in lens:
@@ -463,3 +463,37 @@ def add_shadow(ref, tx, strand=None, biotype='lncRNA', exons=None):
     ref.genes[gid] = g
     ref.txs[tid] = t
     return t
+
+
+def tiny_circle(r):
+    """An 18-30 nt exon meant to be circularised: it holds a start codon right after a K / R codon, and rolling translation from
+    that start codon runs for more than one turn of the circle (no stop codon in the frames it passes through first)."""
+    for _ in range(400):
+        n = r.randrange(18, 31)
+        k = r.randrange(3, n - 6)
+        body = [r.choice('ACGT') for _ in range(n)]
+        body[k - 3:k] = r.choice(['AAG', 'CGG', 'AGA', 'AAA'])
+        body[k:k + 3] = 'ATG'
+        c = ''.join(body)
+        roll = (c[k:] + c * 3)
+        aa = 0
+        for j in range(0, len(roll) - 2, 3):
+            if roll[j:j + 3] in STOPS:
+                break
+            aa += 1
+        if aa * 3 > n + 9:
+            return c, k
+    return None, None
+
+
+def tiny_circle_reference(r):
+    """One non-coding gene of three exons whose middle exon is a tiny_circle; returns (reference, transcript, position of the
+    circle's designed start codon in the transcript)"""
+    c, k = tiny_circle(r)
+    if c is None:
+        return None, None, None
+    a = rand_noncoding(r, r.randrange(8, 20), atg_rate=0.0); z = rand_noncoding(r, r.randrange(8, 20), atg_rate=0.0)
+    b = Builder(r)
+    t = b.add_gene(a + c + z, r.choice((1, -1)), 3, False, exon_lens=[len(a), len(c), len(z)],
+                   flank=(r.randrange(0, 5), r.randrange(0, 5)))
+    return b.finish(), t, len(a) + k
